@@ -265,7 +265,12 @@ def remove_nodes(source: str, nodes: Iterable[ast.AST], root: ast.Module) -> str
         str: Code after deleting nodes
     """
     keep_mask = [True] * len(source)
-    nodes = list(nodes)
+    # Code on a line with a `# pyrefact: ignore` comment stays
+    nodes = [
+        node
+        for node in nodes
+        if not core.has_ignore_comment(source, core.get_charnos(node, source))
+    ]
     for node in nodes:
         start, end = core.get_charnos(node, source)
 
@@ -549,6 +554,13 @@ def alter_code(
     Returns:
         str: _description_
     """
+    # Honour `# pyrefact: ignore` comments. The edits of one call belong together (a statement
+    # that is removed in one place may be added in another, or be absorbed by a replacement), so if
+    # any of them touches an ignored line, none of them is made.
+    for node in (*removals, *replacements):
+        if core.has_ignore_comment(source, core.get_charnos(node, source)):
+            return source
+
     # If priority specified, prioritize some actions over others. This goes on a line number
     # level, so col_offset will be overridden by this.
     original_source = source
